@@ -589,3 +589,6 @@ func diffGroups(w, g Tree) string {
 	}
 	return ""
 }
+
+// SetXattr sets one extended attribute without following symlinks.
+func SetXattr(p, k, v string) error { return unix.Lsetxattr(p, k, []byte(v), 0) }
